@@ -38,7 +38,7 @@ class C11(Prop):
             "documented phase formula; periodic pulse trains. Non-trivial = >=2 blocks or maxdelay>0; distinct by case.")
     assumptions = ["the float phase formula is evaluated by the harness with the kernel's own IEEE operations "
                    "(validated, not proved)", "integer-valued data so float32 sums are exact", "whole-file folds"]
-    regimes_expected = ["fil", "fil-dm", "fil-dm-clamped-gulp", "tim", "periodic", "kernel"]
+    regimes_expected = ["fil", "fil-dm", "fil-dm-clamped-gulp", "tim", "tim-long", "periodic", "kernel"]
     budget_s = (150, 1200)
 
     def _kernel_case(self, rng):
@@ -92,9 +92,17 @@ class C11(Prop):
                 {"kind": "fil-dm", "nbins": 4, "nints": 3, "nbands": 3, "C": 8, "N": 200, "nbits": 32, "period": 5 * TSAMP,
                  "accel": 50.0, "dm": 150.0, "g": 7, "dseed": 3}]
 
+    def _long_case(self, rng):
+        """a long single-channel fold (~1e6 phase bins swept): the absolute sample index multiplies every rounding
+        error of the phase formula, so an evaluation in a narrower type than the documented one shows here only"""
+        return {"kind": "tim-long", "nbins": rng.choice((5, 7, 8)), "nints": rng.choice((1, 4, 8)), "nbands": 1, "C": 1,
+                "N": rng.choice((1 << 20, (1 << 20) + 12345, 3 << 19)), "nbits": 32,
+                "period": rng.choice((7.3, 12.9, 63.0, 23.7, 5.1)) * TSAMP, "accel": rng.choice((0.0, 0.0, 50.0)),
+                "dm": 0.0, "g": 0, "dseed": rng.randrange(1 << 30)}
+
     def gen(self, rng, tier):
         k = 1 if tier == "quick" else 6
-        return [self._case(rng) for _ in range(200 * k)]
+        return [self._long_case(rng) for _ in range(3 * k)] + [self._case(rng) for _ in range(200 * k)]
 
     # ------------------------------------------------------------------
     def _data(self, case):
@@ -102,6 +110,8 @@ class C11(Prop):
             return np.zeros((1, 1), dtype=np.int64)
         rng = random.Random(case["dseed"])
         N, C = case["N"], case["C"]
+        if case["kind"] == "tim-long":
+            return np.random.RandomState(case["dseed"] % (1 << 31)).randint(0, 16, size=(N, 1)).astype(np.int64)
         if case["kind"] == "periodic":
             m = int(round(case["period"] / TSAMP))
             x = np.zeros((N, C), dtype=np.int64)
@@ -165,7 +175,7 @@ class C11(Prop):
         x = self._data(case)
         N, C = x.shape
         try:
-            if case["kind"] == "tim":
+            if case["kind"] in ("tim", "tim-long"):
                 from .c04 import mk_header
                 h = mk_header(1, 32, nsamples=N, tsamp=TSAMP, data_type="time series")
                 ts = TimeSeries(x[:, 0].astype(np.float32), h)
@@ -205,6 +215,22 @@ class C11(Prop):
                 cnt[si[t], sb, pb[t]] += 1
         return sums, cnt, nf, pb, si
 
+    def _expected_long(self, case):
+        """`assign_tables` + `_expected` for one channel, vectorised (same IEEE double operations in the same order)"""
+        x = self._data(case)[:, 0].astype(np.float64)
+        N, nbins, nints = len(x), case["nbins"], case["nints"]
+        ts, p, a = float(np.float32(TSAMP)), float(np.float32(case["period"])), float(np.float32(case["accel"]))
+        t = np.arange(N, dtype=np.int64)
+        tj = t * ts
+        tobs = N * ts
+        phase = nbins * tj * (1 + a * (tj - tobs) / (2 * CVAL)) / p + 0.5
+        pb = np.abs(phase.astype(np.int64)) % nbins
+        si = np.floor_divide(t, N / nints).astype(np.int64)
+        cell = si * nbins + pb
+        sums = np.bincount(cell, weights=x, minlength=nints * nbins).reshape(nints, 1, nbins)
+        cnt = np.bincount(cell, minlength=nints * nbins).astype(np.float64).reshape(nints, 1, nbins)
+        return sums, cnt, N
+
     def _oracle_kernel(self, case, obs):
         if "err" in obs:
             return f"kernels.fold raised {obs['err']}: {obs['msg']}"
@@ -239,7 +265,10 @@ class C11(Prop):
             if obs["err"] == "ValueError" and "too large" in obs["msg"] or "too short" in obs.get("msg", ""):
                 return None
             return f"fold raised {obs['err']}: {obs['msg'][-160:]}"
-        sums, cnt, nf, pb, si = self._expected(case, obs)
+        if case["kind"] == "tim-long":
+            sums, cnt, nf = self._expected_long(case)
+        else:
+            sums, cnt, nf, pb, si = self._expected(case, obs)
         C = case["C"]
         if obs["shape"] != list(sums.shape):
             return f"cube shape {obs['shape']} != {list(sums.shape)}"
@@ -283,7 +312,7 @@ class C11(Prop):
             return [f"K fold {case['md']} {case['total']} {case['n']} {case['C']} {case['nbins']} {case['nints']} "
                     f"{case['nsubs']} {case['idx']} {size} | {' '.join(str(int(v)) for v in x)} | {z} | {z} | "
                     f"{' '.join(str(int(v)) for v in dl)} | {q(TSAMP)} {q(case['period'])} {q(case['accel'])}"]
-        if obs.get("skip") or "err" in obs:
+        if obs.get("skip") or "err" in obs or case["kind"] == "tim-long":
             return []
         x = self._data(case)
         N, C = x.shape
@@ -341,7 +370,7 @@ class C11(Prop):
         return case["kind"]
 
     def nontrivial(self, case, obs):
-        return case["g"] < case["N"] or case["dm"] > 0
+        return case["g"] < case["N"] or case["dm"] > 0 or case["kind"] == "tim-long"
 
 
 PROP = C11()
